@@ -163,14 +163,15 @@ def run(m, chk):
     okm = hv is not None and R.dep_has(hv.all_dep(), ("P", 3)) and R.dep_has(hv.all_dep(), ("P", 1))
     chk.ob("DEP-MAY", f"{FE}__init__: the coefficient table depends on the knot vector and the second index", okm, loc=r.loc(c4, c4.fi.node), detail="" if okm else f"{FE}__init__: the table ignores the requested sub-degree or the knot vector", func=FE + "__init__", construct="table ignores j")
     # span precedes the table lookup
-    c5 = r.root(FE + "__eval")
+    gate = FE + "__eval" if r.has(FE + "__eval") else FE + "eval"  # the private step may be written inside eval
+    c5 = r.root(gate)
     sp = [c for c in c5.calls if any(f.name == "span" for f in c.callees)]
     cm = [c for c in c5.calls if any(f.name.endswith("compute_matrix") for f in c.callees)]
     chk.floor("GATE-SPAN", "table lookup in FunctionEvaluator.__eval", len(cm), 1)
     for c in cm:
         ok = any(c5.cfg.dominates(s.cfgnode, c.cfgnode) for s in sp)
-        chk.ob("GATE-SPAN", f"{FE}__eval: span(nodes) precedes the table lookup", ok, loc=r.loc(c5, c.node), detail="" if ok else f"{FE}__eval: basis values are computed without span(nodes): nodes outside the interval are not rejected", func=FE + "__eval", construct="lookup without span")
-    escapes(r, chk, [(FE + "__call__", ".eval"), (FE + "eval", ".__eval"), (FE + "__eval", ".span"), (F + "BaseFunction.__call__", ".eval")])
+        chk.ob("GATE-SPAN", f"{gate}: span(nodes) precedes the table lookup", ok, loc=r.loc(c5, c.node), detail="" if ok else f"{gate}: basis values are computed without span(nodes): nodes outside the interval are not rejected", func=gate, construct="lookup without span")
+    escapes(r, chk, [(FE + "__call__", ".eval")] + ([(FE + "eval", ".__eval")] if gate.endswith("__eval") else []) + [(gate, ".span"), (F + "BaseFunction.__call__", ".eval")])
     r.pure("PURE", q, ["self", "nodes"])
     r.pure("PURE", GI, ["self", "index"])
     r.pure("PURE", F + "BaseFunction.__eq__", ["self", "other"])
